@@ -14,6 +14,7 @@ mod store;
 mod timeunit;
 mod udpcodec;
 mod udpnet;
+mod udpstats;
 mod validator;
 mod wsjson;
 mod wsstore;
@@ -45,6 +46,10 @@ fn main() {
         serve::run(args.get(2).map(|s| s.as_str()).unwrap_or(""), &args[3.min(args.len())..]);
         return;
     }
+    if family == "exportchild" {
+        udpstats::child(args.get(2).map(|s| s.as_str()).unwrap_or(""), args.get(3).and_then(|v| v.parse().ok()).unwrap_or(0), args.get(4).map(|s| s.as_str()).unwrap_or(""));
+        return;
+    }
     let seed: u64 = arg(&args, "--seed", 1);
     let cases: usize = arg(&args, "--cases", 100);
     let maxops: usize = arg(&args, "--maxops", 60);
@@ -54,6 +59,7 @@ fn main() {
     match family {
         "udpstore" => store::run(&mut out, seed, cases, maxops, &replay, false),
         "udpnet" => udpnet::run(&mut out, seed, cases, &replay, arg(&args, "--uring-resp-buf", 2048)),
+        "udpstats" => udpstats::run(&mut out, seed, cases, maxops, &replay),
         "udpcodec" => udpcodec::run(&mut out, seed, cases, &replay),
         "wsjson" => wsjson::run(&mut out, seed, cases, &replay),
         "wsstore" => wsstore::run(&mut out, seed, cases, maxops, &replay),
